@@ -87,7 +87,9 @@ theorem C16_unload_skeleton_fact :
 
 /-- the one method whose BinaryReader result points into the mmapped header (LabelValues) does
     not hand that result out as it is (it returns copies): `alias = false` is the code -/
-theorem C16_no_alias_fact : "LabelValues" ∉ Thanos.Facts.lazyDirectReturns := by decide
+theorem C16_no_alias_fact :
+    "LabelValues" ∉ Thanos.Facts.lazyDirectReturns ∧
+    Thanos.Facts.lazyLabelValuesReturns = ["nil", "nil", "copyStrings(values)"] := by decide
 
 /-! ### non-vacuity: the schedules of the theorems really reach the interesting states -/
 
